@@ -49,7 +49,7 @@ def gen(c):
             mu = muts_for(rng, klen, adl, ml, th)
             ch = ','.join(map(str, chunks(rng, ml, rate)))
             line = 'aead.forge scheme=%s k=%s n=%s ad=%s m=%s fam=%s chunks=%s inplace=%d null_if_empty=%d tape=%s muts=%s' % (
-                sc, hx(k), hx(n), hx(ad), hx(m), fams, ch, rng.randrange(2), rng.randrange(2), rng.choice(['zero', 'rand', 'ones']), ';'.join(mu))
+                sc, hx(k), hx(n), hx(ad), hx(m), fams, ch, rng.randrange(2), rng.randrange(2), rng.choice(['zero', 'rand', 'ones', 'Frand', 'Fzero']), ';'.join(mu))   # F...: the system entropy source reports failure throughout - acceptance must not depend on it
             p.case([line], cost=(4.0 if slow else 1.0) + len(mu) / 400.0)
             c.distinct([(sc, adl, ml, x.split(':')[0]) for x in mu])
             c.cov['forgeries'] = c.cov.get('forgeries', 0) + (len(mu) - 1) * len(fams.split(','))
